@@ -23,13 +23,14 @@ Types == {"Undefined", "StrictUndefined", "FalsyStrictUndefined", "StrictDefault
 Refs == {"p", "m", "p.q", "m.q", "p.l[5]"}          \* p is bound to {k: "v", l: ["i"]} ; everything but "p" is missing
 Missing(r) == r # "p"
 Kinds == {"output", "echo", "iterate", "tablerow", "truthy", "unless", "eq1", "eqnil", "eqfalse", "eqempty", "eqmissing", "nemissing", "casemissing", "contains",
-          "upcase", "size", "default", "join", "assign", "capture_out", "ternary", "case", "index", "arg"}
+          "upcase", "size", "default", "join", "assign", "capture_out", "ternary", "case", "index", "arg", "cyclearg"}
 (* the statement's four raising uses for StrictUndefined: output, iterate, compare, filter *)
 Class(k) == CASE k \in {"output", "echo", "capture_out"} -> "output"
               [] k \in {"iterate", "tablerow"} -> "iterate"
               [] k \in {"eq1", "eqnil", "eqfalse", "eqempty", "eqmissing", "nemissing", "casemissing", "contains", "case"} -> "compare"
               [] k \in {"upcase", "size", "default", "join"} -> "filter"
-              [] OTHER -> "other"       \* truthiness, ternary condition, assignment without use, use as index / argument
+              [] OTHER -> "other"       \* truthiness, ternary condition, assignment without use, use as index / argument, as an item of a
+                                        \* cycle that is not the one printed (two cycle tags differing only in WHICH path is missing)
 Uses == [k : Kinds, r : Refs]
 (* the *missing kinds compare the reference with ANOTHER missing variable: something missing is used whatever the reference is *)
 UsesMissing(u) == Missing(u.r) \/ u.k \in {"eqmissing", "nemissing", "casemissing"}
